@@ -97,12 +97,18 @@ func vhC02Shapes(k int) []vhPgon {
 		return []vhPgon{vhRect(0, 0, 10, 10, true), vhRect(3, 3, 7, 5, false), vhRect(3, 5, 5, 7, false)}
 	case 10: // hole in hole nesting with shared corner
 		return []vhPgon{vhRect(0, 0, 10, 10, true), vhRect(2, 2, 8, 8, false), vhRect(2, 2, 5, 5, true)}
-	default: // triangle with a vertical edge and a diagonal, overlapping a square
+	case 11: // triangle with a vertical edge and a diagonal, overlapping a square
 		return []vhPgon{{{0, 0}, {8, 0}, {8, 8}}, vhRect(4, -2, 12, 4, true)}
+	case 12: // two holes stacked in one outer contour, the upper one directly above the lower one's top edge
+		return []vhPgon{vhRect(0, 0, 10, 12, true), vhRect(3, 2, 7, 4, false), vhRect(3, 6, 7, 9, false)}
+	case 13: // three holes in a column, the middle one shifted
+		return []vhPgon{vhRect(0, 0, 10, 14, true), vhRect(3, 1, 7, 3, false), vhRect(4, 5, 8, 7, false), vhRect(3, 9, 7, 12, false)}
+	default: // stacked triangular holes
+		return []vhPgon{vhRect(0, 0, 10, 12, true), {{3, 2}, {5, 4}, {7, 2}}, {{3, 6}, {5, 9}, {7, 6}}}
 	}
 }
 
-const vhC02NShapes = 12
+const vhC02NShapes = 15
 
 // C02: Settle(rule) fills exactly what the input fills under the rule; output windings are 0/1
 // and every output contour's orientation makes NonZero, EvenOdd and Positive agree.
@@ -111,7 +117,16 @@ func VH_C02_settle_region_Q() {
 	p := vhPgonPath(vhC02Shapes(shape))
 	before := vhCopyData(p.d)
 	rule := FillRule(vChoose(0, 3))
-	r := p.Settle(rule)
+	// the three public entry points must agree
+	var r *Path
+	switch vChoose(0, 2) {
+	case 0:
+		r = p.Settle(rule)
+	case 1:
+		r = Paths(p.Split()).Settle(rule)
+	default:
+		r = Paths{p}.Settle(rule)
+	}
 	vAssert("C02.settle.receiver_unchanged", vhSameData(p.d, before))
 	vAssert("C02.settle.wellformed", vhStructWF(r))
 	x, y := vNondetF64(), vNondetF64()
@@ -145,12 +160,16 @@ func vhC01Pairs(k int) ([]vhPgon, []vhPgon) {
 		return []vhPgon{vhRect(0, 0, 10, 10, true), vhRect(2, 4, 8, 8, false)}, []vhPgon{vhRect(3, 1, 6, 4, true)}
 	case 8: // Q with two contours, one outside P's bounding box
 		return []vhPgon{vhRect(0, 0, 6, 6, true)}, []vhPgon{vhRect(3, 3, 9, 9, true), vhRect(20, 20, 22, 22, true)}
-	default: // vertical shared edge segment, diagonal crossing
+	case 9: // vertical shared edge segment, diagonal crossing
 		return []vhPgon{{{0, 0}, {6, 0}, {6, 6}}}, []vhPgon{{{6, 2}, {10, 2}, {6, 8}}}
+	case 10: // empty subject
+		return nil, []vhPgon{vhRect(0, 0, 6, 6, true)}
+	default: // empty clipping path
+		return []vhPgon{vhRect(0, 0, 6, 6, true)}, nil
 	}
 }
 
-const vhC01NPairs = 10
+const vhC01NPairs = 12
 
 func VH_C01_boolean_region_Q() {
 	pair := vChoose(0, vhC01NPairs-1)
